@@ -4,13 +4,13 @@ from __future__ import annotations
 
 from vt.ref import hap, tlv8
 
-STEPS = {"ip-add": 2, "ip-remove": 2, "ble-add": 2, "ble-remove": 2}
+STEPS = {"ip-add": 2, "ip-remove": 2, "ble-add": 2, "ble-remove": 2, "ip-verify-m2": 2, "ip-verify-m4": 4}
 
 
 def _reply_items(p):
     from vt.props.c04 import ERRORS, _state_val
 
-    state = _state_val(p["state"], 2)
+    state = _state_val(p["state"], STEPS.get(p.get("step"), 2))
     error = ERRORS[p["err"]]
     items = []
     if state is not None:
@@ -33,14 +33,19 @@ def _judge(p, raised, returned):
 
     det = {k: p[k] for k in ("step", "err", "state", "subset", "errpos", "style")}
     det["http"] = p.get("http", 200)
+    det["wire"] = p.get("wire")
     wrong_state = p["state"] not in ("expected", "absent")
     if p["err"] == "absent" and not wrong_state:
+        if p.get("wire") and raised is not None:
+            # not C04's business as such, but every error cell of this wire style would pass vacuously
+            return [(f"harness:honest-reply-in-legal-http-style-fails:{p['wire']}", dict(det, err=repr(raised)[:160]))]
         return []
     sa = "state-absent" if p["state"] == "absent" else ("state-wrong" if wrong_state else "state-ok")
     if raised is None:
         which = "error" if p["err"] != "absent" else "wrong-state"
         hx = f":http-{p['http']}" if p.get("http", 200) != 200 else ""
-        return [(f"{p['step']}:{which}-reply-reported-as-done:{sa}{hx}", dict(det, returned=repr(returned)))]
+        wx = f":wire-{p['wire']}" if p.get("wire") else ""
+        return [(f"{p['step']}:{which}-reply-reported-as-done:{sa}{hx}{wx}", dict(det, returned=repr(returned)))]
     if not isinstance(raised, HomeKitException):
         return [(f"{p['step']}:fails-with-non-library-error:{type(raised).__name__}", dict(det, err=str(raised)[:160]))]
     return []
@@ -50,6 +55,8 @@ def case_mgmt(p):
     """p['cells']: list of cell dicts sharing step; one rig for all of them."""
     step = p["step"]
     out = []
+    if step.startswith("ip-verify"):
+        return case_ip_verify(p)
     if step.startswith("ip"):
         from vt.env.iprig import IpRig, std_handler
 
@@ -61,6 +68,7 @@ def case_mgmt(p):
             for cell in p["cells"]:
                 cell = dict(cell, step=step)
                 cur["items"] = _reply_items(cell)
+                rig.acc.http_style = cell.get("wire")
                 cur["http"] = cell.get("http", 200)  # accessories commonly send the error TLV inside a 4xx reply (470 with Authentication, 429 with Busy)
                 coro = rig.pairing.add_pairing("new-ctl", "ab" * 32, "User") if step == "ip-add" else rig.pairing.remove_pairing("someone-else")
                 try:
@@ -68,10 +76,11 @@ def case_mgmt(p):
                 except Exception as e:  # noqa: BLE001
                     ret, exc = None, e
                 out += _judge(cell, exc, ret)
-                if not rig.pairing.is_connected:
-                    rig.connect()
                 if out:
                     break
+                if not rig.pairing.is_connected:
+                    rig.acc.http_style = None
+                    rig.connect()
         finally:
             rig.close()
     else:
@@ -95,6 +104,49 @@ def case_mgmt(p):
     return out
 
 
+def case_ip_verify(p):
+    """Pair-verify over the real IP connection: the reference accessory answers M1 (or M3) with the cell's reply, put on the wire in the
+    cell's HTTP style.  A reply with an error (or a wrong step) must leave the pairing unconnected and the caller with a library error."""
+    from vt.env.iprig import IpRig, std_handler
+
+    from aiohomekit.exceptions import HomeKitException
+
+    step = p["step"]
+    out = []
+    for cell in p["cells"]:
+        cell = dict(cell, step=step)
+        items = _reply_items(cell)
+        rig = IpRig(seed=p.get("seed", 0))
+        try:
+            rig.acc.handler = std_handler()
+            rig.acc.http_style = cell.get("wire")
+            if not (cell["err"] == "absent" and cell["state"] in ("expected", "absent") and not cell.get("force")):
+                key = "m2" if step == "ip-verify-m2" else "m4"
+                if key == "m2" and cell["err"] == "absent":
+                    continue  # a wrong-step M2 without error would need the honest fields: the generator-level cells cover it
+                rig.acc.verify_fault = {key: (lambda honest, items=items: items), "http": cell.get("http", 200)}
+            try:
+                rig.connect()
+                exc = None
+            except Exception as e:  # noqa: BLE001
+                exc = e
+            connected = bool(rig.pairing.is_connected)
+            raised = exc if not connected else None
+            if connected and exc is not None:
+                raised = None
+            v = _judge(cell, raised, "connected" if connected else None)
+            if not v and exc is not None and connected:
+                v = []
+            if not v and exc is not None and not isinstance(exc, (HomeKitException,)):
+                v = [(f"{step}:fails-with-non-library-error:{type(exc).__name__}", dict(cell, err=str(exc)[:160]))]
+            out += v
+            if out:
+                break
+        finally:
+            rig.close()
+    return out
+
+
 def case_mgmt_cell(p):
     return case_mgmt(dict(step=p["step"], seed=p.get("seed", 0), cells=[p]))
 
@@ -108,9 +160,15 @@ def cells(tier):
     for step in STEPS:
         for err in ERRORS:
             for state in STATES:
-                for subset in ([], [hap.T_ID]):
+                for subset in ([], [hap.T_ID]) if "verify" not in step else ([],):
                     for errpos in (["last"] if err == "absent" else ["first", "afterstate", "last"]):
                         yield ("mgmt", dict(step=step, err=err, state=state, subset=subset, errpos=errpos, style="ip" if step.startswith("ip") else "ble"))
-                        if step.startswith("ip") and err != "absent" and errpos == "last" and not subset and state in ("expected", "absent"):
-                            for http in (400, 429, 470):
+                        if step.startswith("ip") and errpos == "last" and not subset and state in ("expected", "absent"):
+                            for http in (400, 429, 470) if err != "absent" else ():
                                 yield ("mgmt", dict(step=step, err=err, state=state, subset=subset, errpos=errpos, style="ip", http=http))
+                            from vt.ref.ipacc import HTTP_STYLES
+
+                            for wire in HTTP_STYLES:
+                                if err == "absent" and state != "expected":
+                                    continue
+                                yield ("mgmt", dict(step=step, err=err, state=state, subset=subset, errpos=errpos, style="ip", wire=wire))
